@@ -27,6 +27,13 @@ Proof.
   destruct He as [Hn He]. simpl. apply Nat.ltb_lt in Hn. rewrite Hn, He. discriminate.
 Qed.
 
+(* barycentric, dual, BC/RBC, localised, DP spaces: all multipliers of support rows are 1 *)
+Theorem arange_alias_closed n k sup : alias_closed (arange_space n k sup).
+Proof.
+  apply alias_closed_all_nonzero. intros e i He _. apply in_support_elements' in He. simpl in He.
+  destruct He as [_ He]. simpl. rewrite He. discriminate.
+Qed.
+
 (* rank is strictly monotone on the selected indices: distinct selected indices get distinct numbers *)
 Lemma rank_succ D v : rank D (S v) = rank D v + (if D v then 1 else 0).
 Proof.
@@ -70,4 +77,14 @@ Theorem dp1_injective g sup e f i j : sup e = true -> sup f = true -> i < 3 -> j
 Proof.
   simpl. intros He Hf Hi Hj. rewrite He, Hf. intros E.
   assert (rank sup e = rank sup f) by lia. split; [now apply (rank_inj sup) | lia].
+Qed.
+
+(* different support elements of an arange space never share a dof (so one colour would do) *)
+Theorem arange_rows_disjoint n k sup e f i j : sup e = true -> sup f = true -> i < k -> j < k ->
+  l2g (arange_space n k sup) e i = l2g (arange_space n k sup) f j -> e = f /\ i = j.
+Proof.
+  simpl. intros He Hf Hi Hj. rewrite He, Hf. intros E.
+  assert (rank sup e = rank sup f).
+  { destruct (Nat.lt_trichotomy (rank sup e) (rank sup f)) as [H|[H|H]]; [exfalso|assumption|exfalso]; nia. }
+  split; [now apply (rank_inj sup) | nia].
 Qed.
